@@ -196,6 +196,8 @@ class MonoTimer(Timer):
             resynchronizes ._last to that reading so that a clock adjustment
             made before the timer was started is not counted against it.
         """
+        # validate first so that a rejected call neither reads the clock nor moves ._last
+        duration = float(duration) if duration is not None else self.duration
         if start is None:
             start = self._last = time.time()
         return super(MonoTimer, self).start(duration=duration, start=start)
